@@ -15,6 +15,7 @@
 #include "../MatOp/internal/ArnoldiOp.h"
 #include "../Util/TypeTraits.h"
 #include "../Util/SimpleRandom.h"
+#include "../Util/VerifHooks.h"
 #include "UpperHessenbergQR.h"
 #include "DoubleShiftQR.h"
 
@@ -66,6 +67,7 @@ protected:
         Vector v(m_n), Vf(V.cols());
         for (Index iter = 0; iter < 5; iter++)
         {
+            SPECTRA_VERIF_YIELD(3);
             // Randomly generate a new vector and orthogonalize it against V
             SimpleRandom<Scalar> rng(seed + 123 * iter);
             // The first try forces f to be in the range of A
@@ -106,8 +108,12 @@ protected:
             // If the condition is satisfied, simply return
             // Otherwise, go to the next iteration and try a new random vector
             if (ortho_err < m_eps * fnorm)
+            {
+                SPECTRA_VERIF_FAC_POINT(verif::FacExpanded, V.data(), m_n, V.cols(), m_fac_H.data(), m_m, f.data(), &fnorm, &m_op);
                 return;
+            }
         }
+        SPECTRA_VERIF_FAC_POINT(verif::FacExpandFailed, V.data(), m_n, V.cols(), m_fac_H.data(), m_m, f.data(), &fnorm, &m_op);
     }
 
 public:
@@ -187,6 +193,7 @@ public:
 
         // Indicate that this is a step-1 factorization
         m_k = 1;
+        SPECTRA_VERIF_FAC_POINT(verif::FacInit, m_fac_V.data(), m_n, m_k, m_fac_H.data(), m_m, m_fac_f.data(), &m_beta, &m_op);
     }
 
     // Arnoldi factorization starting from step-k
@@ -216,6 +223,7 @@ public:
 
         for (Index i = from_k; i <= to_m - 1; i++)
         {
+            SPECTRA_VERIF_YIELD(1);
             bool restart = false;
             // If beta = 0, then the next V is not full rank
             // We need to generate a new residual vector that is orthogonal
@@ -286,6 +294,7 @@ public:
 
         // Indicate that this is a step-m factorization
         m_k = to_m;
+        SPECTRA_VERIF_FAC_POINT(verif::FacExtended, m_fac_V.data(), m_n, m_k, m_fac_H.data(), m_m, m_fac_f.data(), &m_beta, &m_op);
     }
 
     // Apply H -> Q'HQ, where Q is from a double shift QR decomposition
@@ -330,6 +339,7 @@ public:
         Vector fk = m_fac_f * Q(m_m - 1, m_k - 1) + m_fac_V.col(m_k) * m_fac_H(m_k, m_k - 1);
         m_fac_f.swap(fk);
         m_beta = m_op.norm(m_fac_f);
+        SPECTRA_VERIF_FAC_POINT(verif::FacCompressed, m_fac_V.data(), m_n, m_k, m_fac_H.data(), m_m, m_fac_f.data(), &m_beta, &m_op);
     }
 };
 
